@@ -116,8 +116,9 @@ def term_targets(t):
 
 
 class Facts:
-    def __init__(self, facts_dir, nonce=None):
+    def __init__(self, facts_dir, nonce=None, reference=True):
         self.dir = facts_dir
+        self.reference_report = {"available": False}
         self.crates = {}
         self.fns = {}
         self.adts = {}
@@ -190,6 +191,9 @@ class Facts:
                     self.impls.append(im)
         self._children = None
         self._impl_by_id = {im["id"]: im for im in self.impls}
+        if reference and os.environ.get("UEC_NO_REFERENCE") != "1":
+            from . import canonsum
+            canonsum.apply_reference(self)
 
     # ------------------------------------------------------------------
     def fn(self, fid):
@@ -207,18 +211,20 @@ class Facts:
         fn = self.fns.get(fid)
         return fn is not None and not fn.is_closure and fid not in self.known_fn_ids
 
-    def inline_paths(self, fid, depth):
+    def inline_paths(self, fid, depth, canon=False, inline_all=False):
         """walker paths of a new, loop-free, small function that writes through none of its parameters; else None"""
         if depth >= INLINE_MAX_DEPTH:
             return None
-        key = fid
+        key = (fid, canon, inline_all)
         if key in self._inline_cache:
             return self._inline_cache[key]
         self._inline_cache[key] = None         # recursion guard
         from . import sym
         fn = self.fns[fid]
         try:
-            ps = sym.Walker(fn, self, depth=depth + 1).run()
+            w = sym.Walker(fn, self, depth=depth + 1, canon=canon)
+            w.inline_all = inline_all
+            ps = w.run()
         except sym.PathLimit:
             return None
         ok = 0 < len(ps) <= INLINE_MAX_PATHS and all(p.end in ("return", "diverge", "unreachable") for p in ps)
